@@ -120,26 +120,94 @@ func runC13(c *eng.Ctx) {
 				}
 			}
 			r1.Check(okConv && nconv > 0, f.Key+" convert-only-valid", loop.Pos(), "a document becomes an operation only after it validated", "an invalid document can still be converted into an operation")
-			// the returned error carries the validation errors
+			// the returned error carries the validation errors: after a failed validation (err != nil assumed, up to the
+			// next document) every return gives an error built from the validation error, directly or through an
+			// accumulator that was extended with it on every path to that return; a path that goes on to the next
+			// document must have extended the accumulator, and every return of the function then returns it
 			retOK := false
-			var acc types.Object
-			for _, n := range g.Nodes {
-				if as, ok := n.Node.(*ast.AssignStmt); ok && len(as.Rhs) == 1 && isCallNamed(info, as.Rhs[0], "Append") && eng.LoopOf(f.Decl.Body, as.Pos()) == loop {
-					acc = eng.SelObj(info, as.Lhs[0])
+			var vnode *eng.GNode
+			for _, m := range g.Nodes {
+				if isValidate(m) {
+					vnode = m
 				}
 			}
-			nretAfter := 0
-			retOK = acc != nil
-			eng.InspectNoLit(f.Decl.Body, func(n ast.Node) bool {
-				if r, isR := n.(*ast.ReturnStmt); isR && len(r.Results) == 2 && r.Pos() > loop.End() {
-					nretAfter++
-					if acc == nil || !eng.UsesObj(info, r.Results[1], acc, false) {
-						retOK = false
+			if vnode != nil {
+				if as, ok := vnode.Node.(*ast.AssignStmt); ok && len(as.Lhs) == 1 {
+					ev := eng.SelObj(info, as.Lhs[0])
+					assumed := func(fc eng.Fact) bool {
+						x, y, eq, isEq := eng.EqAtom(fc)
+						return isEq && !eq && eng.SelObj(info, x) == ev && eng.IsNil(info, y)
 					}
+					// accumulation nodes: a := E(.. ev ..)
+					accAt := map[*eng.GNode]types.Object{}
+					for _, m := range g.Nodes {
+						if as2, ok := m.Node.(*ast.AssignStmt); ok && m != vnode && len(as2.Lhs) == 1 && len(as2.Rhs) == 1 && ev != nil && eng.UsesObj(info, as2.Rhs[0], ev, false) {
+							if a := eng.SelObj(info, as2.Lhs[0]); a != nil {
+								accAt[m] = a
+							}
+						}
+					}
+					carries := func(e ast.Expr, from *eng.GNode, target *eng.GNode) bool {
+						if eng.UsesObj(info, e, ev, false) {
+							return true
+						}
+						for m, a := range accAt {
+							_ = m
+							if !eng.UsesObj(info, e, a, false) {
+								continue
+							}
+							// target is reached from the failed validation only through an accumulation into a
+							r := g.Reach(eng.Query{From: []*eng.GNode{from}, AvoidEdge: g.Infeasible(assumed), AvoidNode: func(x *eng.GNode) bool {
+								return accAt[x] == a || isLoopHeadOf(loop)(x)
+							}})
+							if !r[target] {
+								return true
+							}
+						}
+						return false
+					}
+					reach := g.Reach(eng.Query{From: []*eng.GNode{vnode}, AvoidEdge: g.Infeasible(assumed), AvoidNode: isLoopHeadOf(loop)})
+					retOK = true
+					nret := 0
+					var goesOn *eng.GNode
+					for n := range reach {
+						if isLoopHeadOf(loop)(n) {
+							goesOn = n
+						}
+						if r, isR := eng.IsReturn(n); isR {
+							nret++
+							if len(r.Results) != 2 || !carries(r.Results[1], vnode, n) {
+								retOK = false
+							}
+						}
+					}
+					if goesOn != nil {
+						// the loop goes on after a failure: the error must have been accumulated, and every return carries the accumulator
+						var theAcc types.Object
+						for _, a := range accAt {
+							r := g.Reach(eng.Query{From: []*eng.GNode{vnode}, AvoidEdge: g.Infeasible(assumed), AvoidNode: func(x *eng.GNode) bool {
+								return accAt[x] == a
+							}})
+							if !r[goesOn] {
+								theAcc = a
+							}
+						}
+						if theAcc == nil {
+							retOK = false
+						} else {
+							for _, n := range g.Nodes {
+								if r, isR := eng.IsReturn(n); isR && r.Pos() > vnode.Node.Pos() {
+									nret++
+									if len(r.Results) != 2 || !eng.UsesObj(info, r.Results[1], theAcc, false) {
+										retOK = false
+									}
+								}
+							}
+						}
+					}
+					retOK = retOK && nret > 0
 				}
-				return true
-			})
-			retOK = retOK && nretAfter > 0
+			}
 			r1.Check(retOK, f.Key+" validation-errors-returned", f.Decl.Pos(), "the accumulated validation errors are returned", "ParseOperations can return a nil error although a document failed validation")
 			// ascending conversion
 			r2p := c.Rule("C13.R2", "B:order", "stream order: fresh decode target per document, one append per decoded document in both decoders, ascending conversion, one ExecuteOperation per element in ascending order with aggregated errors", 6)
@@ -638,7 +706,7 @@ func runC13R5(c *eng.Ctx, r *eng.RuleCtx) {
 					if okArm && strings.HasSuffix(name, "Patch") && call != nil {
 						// options: WithSubresource(spec.Subresource), withIgnoreMissingObject(spec.IgnoreMissingObject), withIgnoreHookError(spec.IgnoreHookError)
 						opts := map[string]string{}
-						for _, a := range call.Args {
+						for _, a := range expandVariadic(info, f.Decl.Body, call) {
 							if oc, isC := ast.Unparen(a).(*ast.CallExpr); isC && len(oc.Args) == 1 {
 								if o := eng.CalleeOf(info, oc); o != nil {
 									if s, isSel := ast.Unparen(oc.Args[0]).(*ast.SelectorExpr); isSel {
